@@ -1264,3 +1264,42 @@ MA('C05', 'Flattening inverse ignores the order', TOPS,
    'return np.reshape(x.asarray(), self.range.shape, order=op.order)',
    'return np.reshape(x.asarray(), self.range.shape)',
    'order=F')
+MA('C05', 'PointwiseInnerAdjoint weight ratio inverted', TOPS,
+   'PointwiseInnerAdjoint._call', 'oi *= dom_wi / ran_wi',
+   'oi *= ran_wi / dom_wi', 'PointwiseInner')
+MA('C05', 'PointwiseInner adjoint forgets the operator weights', TOPS,
+   'PointwiseInner.adjoint',
+   'return PointwiseInnerAdjoint(sspace=self.base_space, vecfield=self.vecfield, vfspace=self.domain, weighting=self.weights)',
+   'return PointwiseInnerAdjoint(sspace=self.base_space, vecfield=self.vecfield, vfspace=self.domain)',
+   'weighting=q')
+MA('C05', 'PointwiseInnerAdjoint adjoint forgets the operator weights', TOPS,
+   'PointwiseInnerAdjoint.adjoint',
+   'return PointwiseInner(vfspace=self.range, vecfield=self.vecfield, weighting=self.weights)',
+   'return PointwiseInner(vfspace=self.range, vecfield=self.vecfield)',
+   'weighting=q')
+M('C05', 'PointwiseInner forgets conjugation of the first component', TOPS,
+  """        if self.domain.field == ComplexNumbers():
+            vf[0].multiply(self._vecfield[0].conj(), out=out)
+        else:
+            vf[0].multiply(self._vecfield[0], out=out)
+
+        if self.is_weighted:""", """        vf[0].multiply(self._vecfield[0], out=out)
+
+        if self.is_weighted:""", 'PointwiseInner[C')
+MA('C05', 'PointwiseInner weights only the first component', TOPS,
+   'PointwiseInner._call', 'tmp *= wi', 'pass', 'PointwiseInner')
+M('C05', 'adjoint method table keeps forward', DIFF,
+  "               'forward': 'backward',", "               'forward': 'forward',",
+  'PartialDerivative[forward')
+M('C05', 'adjoint padding table maps order1 to itself', DIFF,
+  "                'order1': 'order1_adjoint',", "                'order1': 'order1',",
+  'order1')
+M('C05', 'Gradient adjoint loses the sign', DIFF,
+  "        return - Divergence(domain=self.range, range=self.domain,",
+  "        return Divergence(domain=self.range, range=self.domain,",
+  'Gradient[')
+MA('C05', 'Divergence adjoint keeps the difference method', DIFF,
+   'Divergence.adjoint',
+   'return -Gradient(self.range, self.domain, method=_ADJ_METHOD[self.method], pad_mode=_ADJ_PADDING[self.pad_mode])',
+   'return -Gradient(self.range, self.domain, method=self.method, pad_mode=_ADJ_PADDING[self.pad_mode])',
+   'Divergence[forward')
